@@ -133,7 +133,44 @@ func (c *Ctx) addFact(t *Term) {
 	if t.IsTrue() {
 		return
 	}
+	if freeBound(t) {
+		// a fact about a term under a quantifier (mentions a bound variable outside any binder): dropped, never asserted
+		return
+	}
 	globalFacts = append(globalFacts, t)
+}
+
+// freeBound: does t mention a bound variable that no quantifier inside t binds?
+func freeBound(t *Term) bool {
+	if !hasBound(t) {
+		return false
+	}
+	var walk func(t *Term, bound map[*Term]bool) bool
+	walk = func(t *Term, bound map[*Term]bool) bool {
+		if t.Op == "bvar" {
+			return !bound[t]
+		}
+		if !hasBound(t) {
+			return false
+		}
+		nb := bound
+		if len(t.Bnd) > 0 {
+			nb = map[*Term]bool{}
+			for k, v := range bound {
+				nb[k] = v
+			}
+			for _, b := range t.Bnd {
+				nb[b] = true
+			}
+		}
+		for _, a := range t.Args {
+			if walk(a, nb) {
+				return true
+			}
+		}
+		return false
+	}
+	return walk(t, map[*Term]bool{})
 }
 
 func (c *Ctx) oblige(fr *Frame, kind, name string, st *State, goal *Term, desc string, pos token.Pos) {
